@@ -174,6 +174,7 @@ func TestFitRandom(t *testing.T) {
 
 // Boundary table: the documented constants and a few exact configurations.
 func TestFitTable(t *testing.T) {
+	harness.OnlyFirstShard(t)
 	st := harness.Counter("table", "hand-written exact configurations (square in wide/tall targets, default viewBox, alignment 0/.5/1)")
 	n := 0
 	for _, vb := range [][4]float32{{-32, -32, 32, 32}, {0, 0, 24, 24}, {0, 0, 48, 24}, {-24, -24, 24, 24}, {0, 0, 1, 3}, {-8, 4, 100, 5}} {
